@@ -135,6 +135,11 @@ class Renderer(object):
                 if not self.D["pow_bi_exp"]:
                     # libaldor: `^: (Integer, MachineInteger) -> Integer` returns its base when the base is 0 or 1, so
                     # 0^0 = 0 there; AldorSem's bi.pow is the mathematical power (0^0 = 1): exponent 0 is spelled out
+                    # (a literal exponent -- all the generator produces -- is decided here: no conditional expression,
+                    # which inside a one-element bracket would run into the known singleton-bracket finding of C01)
+                    ea = x["args"][1]
+                    if ea.get("e") == "lit":
+                        return "1@BI" if not any(ea["ds"]) else "(%s ^ %s)" % (a[0], a[1])
                     return "(if (%s = 0@SI) then 1@BI else (%s ^ %s))" % (a[1], a[0], a[1])
                 return "(%s ^ (%s::BI))" % (a[0], a[1])
             return "(%s %s %s)" % (a[0], OPS[o], a[1])
